@@ -1,5 +1,6 @@
 import GnarkVerif.Proofs.MerkleVerifyGen
 import GnarkVerif.Gen.Imp.MerkleTree
+import GnarkVerif.Props.C16
 /-
 Helper lemmas for C16_tree_gen: the tree BUILDER of Gen/Imp/MerkleTree.lean (REGENERATED from /repo/accumulator/merkletree/tree.go by
 tools/goslp mode "imp": `New`, `joinSubTrees`, `joinAllSubTrees`, `Root`, `Push`, `Prove`, `SetIndex`, `PushSubTree`) refines
@@ -457,3 +458,177 @@ theorem pushSubTree_eq (g : GTree) (h : Nat) (s : B) (fuel : Nat) (hinv : Inv g)
         simp only [hhd, List.isEmpty_cons, Bool.not_false, Bool.true_and, nodeOf, List.headD_cons, hdec, Bool.false_eq_true, ↓reduceIte]
         rw [← hhd, hj]
         exact ⟨trivial, habs, hinv' _ rfl, rfl⟩
+
+/-! ### histories -/
+
+/-- which refusal of `PushSubTree` an error value is -/
+def subErrOf (e : Err) : Option SubErr :=
+  if e = Err.sentinel "the cached tree shouldn't contain the element to prove" then some .containsProofIndex
+  else if e = Err.sentinel "can't add a subtree that is larger than the smallest subtree %v > %v" then some .tooLarge
+  else none
+
+/-- the result of `Prove` read as the model's tuple (inverse of `proveOut`) -/
+def proveIn (r : Option B × Option (List B) × Nat × Nat) : Option B × Option B × List B × Nat × Nat :=
+  (r.1, r.2.1.bind List.head?, (r.2.1.map List.tail).getD [], r.2.2.1, r.2.2.2)
+
+theorem proveIn_proveOut (t : Merkle.Tree B B) : proveIn (proveOut (prove hn t)) = prove hn t := by
+  unfold prove
+  split <;> simp [proveIn, proveOut]
+
+/-- one call of a history executed by the GENERATED code (every loop with fuel `F`): the tree it leaves and what the caller sees -/
+def gstep (F : Nat) (g : GTree) : HOp B → GTree × Option (Obs B B)
+  | .push x => (Push hl hn g x F, none)
+  | .sub h X =>
+    let r := PushSubTree hl hn g (h : Int) (MTH hl hn X) F
+    (r.1, (subErrOf r.2).map Obs.refused)
+  | .root => (g, some (.root (Root hl hn g F)))
+  | .prove => (g, some (.prove (proveIn (Prove hl hn g F F F F))))
+
+/-- a history executed by the generated code -/
+def grun (F : Nat) (g : GTree) : List (HOp B) → GTree × List (Obs B B)
+  | [] => (g, [])
+  | op :: ops =>
+    let r := gstep hl hn F g op
+    let r' := grun F r.1 ops
+    (r'.1, r.2.toList ++ r'.2)
+
+/-- bound under which one call is exact (no uint64 wrap-around, no shift count ≥ 64) -/
+def BndOp (t : Merkle.Tree B B) : HOp B → Prop
+  | .push _ => t.cur + 1 < 2^64
+  | .sub h _ => h < 64 ∧ t.cur + 2^h < 2^64
+  | _ => True
+
+/-- the bounds hold along the model's run of the history; `F` bounds the number of sub-trees -/
+def BndRun (F : Nat) : Merkle.Tree B B → List (HOp B) → Prop
+  | _, [] => True
+  | t, op :: ops => (∀ e ∈ t.stack, e.1 < 64) ∧ t.stack.length ≤ F ∧ BndOp t op ∧ BndRun F (hstep hl hn t op).1 ops
+
+theorem gstep_eq (F : Nat) (g : GTree) (op : HOp B) (hinv : Inv g) (hb : ∀ e ∈ (abs g).stack, e.1 < 64)
+    (hF : (abs g).stack.length ≤ F) (hop : BndOp (abs g) op) :
+    (gstep hl hn F g op).2 = (hstep hl hn (abs g) op).2 ∧ abs (gstep hl hn F g op).1 = (hstep hl hn (abs g) op).1 ∧
+      Inv (gstep hl hn F g op).1 := by
+  have hF' : g.head.length ≤ F := by simpa [abs, absStack] using hF
+  cases op with
+  | push x =>
+    obtain ⟨h1, h2, _⟩ := push_eq hl hn g x F hinv hb hop hF'
+    exact ⟨rfl, h1, h2⟩
+  | sub h X =>
+    have := pushSubTree_eq hl hn g h (MTH hl hn X) F hinv hb hop.1 hop.2 hF'
+    simp only [gstep, hstep]
+    cases hm : pushSubTree hn (abs g) h (MTH hl hn X) with
+    | ok t' =>
+      rw [hm] at this
+      obtain ⟨h1, h2, h3, _⟩ := this
+      simp only [h1, h2]
+      exact ⟨rfl, trivial, h3⟩
+    | error e =>
+      rw [hm] at this
+      cases e with
+      | containsProofIndex => simp only at this; rw [this]; exact ⟨rfl, rfl, hinv⟩
+      | tooLarge => simp only at this; rw [this]; exact ⟨rfl, rfl, hinv⟩
+  | root =>
+    simp only [gstep, hstep, root_eq hl hn g F hinv.2.1 hF']
+    exact ⟨trivial, trivial, hinv⟩
+  | prove =>
+    simp only [gstep, hstep, prove_eq hl hn g F F F F hinv hF' hF' hF' hF', proveIn_proveOut]
+    exact ⟨trivial, trivial, hinv⟩
+
+/-- the generated code run on any history under the bounds: same observations (every refusal included) and a final tree that
+abstracts to the model's final tree -/
+theorem grun_eq (F : Nat) : ∀ (ops : List (HOp B)) (g : GTree), Inv g → BndRun hl hn F (abs g) ops →
+    (grun hl hn F g ops).2 = (hrun hl hn (abs g) ops).2 ∧ abs (grun hl hn F g ops).1 = (hrun hl hn (abs g) ops).1 ∧
+      Inv (grun hl hn F g ops).1
+  | [], g, hinv, _ => ⟨rfl, rfl, hinv⟩
+  | op :: ops, g, hinv, hb => by
+    obtain ⟨hb1, hb2, hb3, hb4⟩ := hb
+    obtain ⟨h1, h2, h3⟩ := gstep_eq hl hn F g op hinv hb1 hb2 hb3
+    rw [← h2] at hb4
+    obtain ⟨i1, i2, i3⟩ := grun_eq F ops (gstep hl hn F g op).1 h3 hb4
+    simp only [grun, hrun]
+    rw [h2] at i1 i2
+    exact ⟨by rw [h1, i1], i2, i3⟩
+
+/-! ### the bounds for trees built from the empty tree: fewer than 2^63 leaves -/
+
+theorem blocks_pow_le {A D : Type} [Inhabited D] (hl' : A → D) (hn' : D → D → D) : ∀ (h : Nat) (X : List A),
+    ∀ e ∈ blocks hl' hn' h X, 2^e.1 ≤ X.length
+  | 0, _ => by simp [blocks]
+  | h+1, X => by
+    intro e he
+    unfold blocks at he
+    split at he
+    · exact blocks_pow_le hl' hn' h X e he
+    · split at he
+      · simp at he; rw [he]; simp; omega
+      · rcases List.mem_append.mp he with he | he
+        · have := blocks_pow_le hl' hn' h _ e he
+          rw [List.length_drop] at this
+          exact Nat.le_trans this (Nat.sub_le _ _)
+        · simp at he; rw [he]; simp; omega
+
+theorem blocks_length_le {A D : Type} [Inhabited D] (hl' : A → D) (hn' : D → D → D) : ∀ (h : Nat) (X : List A) (k : Nat),
+    X.length < 2^h → X.length < 2^k → (blocks hl' hn' h X).length ≤ k
+  | 0, _, _, _, _ => by simp [blocks]
+  | h+1, X, k, h1, h2 => by
+    unfold blocks
+    split
+    · exact blocks_length_le hl' hn' h X k (by assumption) h2
+    · have hk : h < k := by
+        by_contra hc
+        have : 2^k ≤ 2^h := Nat.pow_le_pow_right (by omega) (by omega)
+        omega
+      split
+      · simp; omega
+      · have := blocks_length_le hl' hn' h (X.drop (2^h)) h (by simp [pow_succ] at h1 ⊢; omega) (by simp [pow_succ] at h1 ⊢; omega)
+        simp; omega
+
+/-- the model tree after `SetIndex(p)` (or none) -/
+abbrev init0 (p : Nat) (pt : Bool) : Merkle.Tree B B := ⟨[], 0, p, none, [], pt⟩
+
+theorem bnd_init (p : Nat) (pt : Bool) (L : List B) (hL : L.length < 2^63) :
+    (∀ e ∈ (pushAll hl hn (init0 p pt) L).stack, e.1 < 64) ∧ (pushAll hl hn (init0 p pt) L).stack.length ≤ 63 ∧
+      (pushAll hl hn (init0 p pt) L).cur = L.length := by
+  rw [show init0 p pt = (⟨[], 0, p, none, [], pt⟩ : Merkle.Tree B B) from rfl, pushAll_init]
+  refine ⟨?_, ?_, rfl⟩
+  · intro e he
+    have h1 := blocks_pow_le hl hn L.length L e he
+    have h2 : 2^e.1 < 2^63 := Nat.lt_of_le_of_lt h1 hL
+    have := (Nat.pow_lt_pow_iff_right (by omega : 1 < 2)).mp h2
+    omega
+  · exact blocks_length_le hl hn L.length L 63 Nat.lt_two_pow_self hL
+
+/-- the bounds hold along every well-formed history that commits fewer than 2^63 leaves in total -/
+theorem bndRun_init (p : Nat) (pt : Bool) (F : Nat) (hF : 63 ≤ F) : ∀ (ops : List (HOp B)) (L : List B),
+    hwf (A := B) p L.length ops → (L ++ hleaves ops).length < 2^63 →
+    BndRun hl hn F (pushAll hl hn (init0 p pt) L) ops
+  | [], _, _, _ => trivial
+  | .push x :: ops, L, hw, hlen => by
+    simp only [hleaves, List.length_append, List.length_cons] at hlen
+    obtain ⟨b1, b2, b3⟩ := bnd_init hl hn p pt L (by omega)
+    refine ⟨b1, by omega, ?_, ?_⟩
+    · show (pushAll hl hn (init0 p pt) L).cur + 1 < 2^64
+      rw [b3]; omega
+    · have hs : push hl hn (pushAll hl hn (init0 p pt) L) x = pushAll hl hn (init0 p pt) (L ++ [x]) := by
+        rw [pushAll_append]; rfl
+      simp only [hstep, hs]
+      exact bndRun_init p pt F hF ops (L ++ [x]) (by simpa [hwf] using hw) (by simp [List.length_append]; omega)
+  | .sub h X :: ops, L, hw, hlen => by
+    obtain ⟨hX, hd, hp, hw'⟩ := hw
+    simp only [hleaves, List.length_append] at hlen
+    obtain ⟨b1, b2, b3⟩ := bnd_init hl hn p pt L (by omega)
+    have h63 : h < 63 := by
+      have : 2^h < 2^63 := by omega
+      exact (Nat.pow_lt_pow_iff_right (by omega : 1 < 2)).mp this
+    refine ⟨b1, by omega, ⟨by omega, ?_⟩, ?_⟩
+    · rw [b3]; omega
+    · simp only [hstep, init0, C16_pushSubTree_refines hl hn L X h p pt hX hd hp]
+      exact bndRun_init p pt F hF ops (L ++ X) (by rw [List.length_append, hX]; exact hw')
+        (by simp only [List.length_append] at hlen ⊢; omega)
+  | .root :: ops, L, hw, hlen => by
+    simp only [hleaves] at hlen
+    obtain ⟨b1, b2, _⟩ := bnd_init hl hn p pt L (by simp only [List.length_append] at hlen; omega)
+    exact ⟨b1, by omega, trivial, bndRun_init p pt F hF ops L hw hlen⟩
+  | .prove :: ops, L, hw, hlen => by
+    simp only [hleaves] at hlen
+    obtain ⟨b1, b2, _⟩ := bnd_init hl hn p pt L (by simp only [List.length_append] at hlen; omega)
+    exact ⟨b1, by omega, trivial, bndRun_init p pt F hF ops L hw hlen⟩
